@@ -6,6 +6,7 @@ import (
 	"encoding/xml"
 	"fmt"
 	"io"
+	"path"
 	"strconv"
 	"strings"
 
@@ -217,6 +218,8 @@ func (r *Reader) parseWorksheets() error {
 			target = "xl/" + target
 		}
 		target = strings.TrimPrefix(target, "/")
+		// Targets are relative references: remove "." and ".." segments
+		target = path.Clean(target)
 
 		data, err := r.getFileContent(target)
 		if err != nil {
